@@ -155,10 +155,12 @@ func Start(t TestingT, opt ...Option) *Directory {
 	} else {
 		d.logger.Debug("not using TLS")
 	}
+	runErr := make(chan error, 1)
 	go func() {
 		err := d.s.Run(fmt.Sprintf("%s:%d", opts.withHost, opts.withPort), connOpts...)
 		if err != nil {
 			d.logger.Error("Error during shutdown", "op", "testdirectory.Start", "err", err.Error())
+			runErr <- err
 		}
 	}()
 
@@ -171,6 +173,13 @@ func Start(t TestingT, opt ...Option) *Directory {
 		time.Sleep(100 * time.Nanosecond)
 		if d.s.Ready() {
 			break
+		}
+		select {
+		case err := <-runErr:
+			// the server will never become ready (e.g. the port is taken)
+			require.NoError(err)
+			return d
+		default:
 		}
 	}
 	return d
